@@ -133,3 +133,5 @@ func TestC13(t *testing.T) { RunProp(t, "C13", "origin", genOriginCase, checkC13
 func TestC14(t *testing.T) { RunProp(t, "C14", "clienthandshake", genClientHSCase, checkC14) }
 
 func TestC15(t *testing.T) { RunProp(t, "C15", "compression-agreement", genCompCase, checkC15) }
+
+func TestC17(t *testing.T) { RunProp(t, "C17", "boundary", genBoundaryCase, checkC17) }
